@@ -390,3 +390,42 @@ Example C13_example_keys :
   should_force_upgrade (fast_storage_label 12) 13 = true /\
   should_force_upgrade (fast_storage_label 12) 12 = false.
 Proof. vm_compute. repeat split; reflexivity. Qed.
+
+(** *** The whole database as bytes (DbImage.v): the image of a store, an index and a label under
+    the Codec encoders in key order; decoding is its inverse on encodable databases; and opening
+    the image of the physical store of ANY reachable in-contract state - decode, discover the
+    version range by the binary search, load every discovered version node by node - returns
+    exactly the model's forest (every retained version, hashes included, and no other version),
+    provided no stale root key survives (finding C14-stale-root-key; without the proviso every
+    retained version still loads back exactly and only the discovered range may start earlier). *)
+From IAVL Require Import MTree VersionFacts Store StoreFacts PruneAlgo PruneAlgoFacts6 FastLife Discover DiscoverFacts DbImage DbImageFacts.
+Local Open Scope Z_scope.
+
+Theorem C13_decode_encode_image :
+  forall st fi l, image_ok st fi l = true -> decode_image (encode_image st fi l) = Some (st, fi, l).
+Proof. exact decode_encode_image. Qed.
+Print Assumptions C13_decode_encode_image.
+
+Theorem C13_encode_image_injective : ltac:(let t := type of encode_image_injective in exact t).
+Proof. exact encode_image_injective. Qed.
+Print Assumptions C13_encode_image_injective.
+
+Theorem C13_reopen_reads_back_the_model :
+  forall (H : bytes -> bytes) iv b ops r fi l,
+    init_ok iv b -> run_ok H (init_state iv b) ops ->
+    let s := fst (run H (init_state iv b) ops) in
+    rekey_ok r (forest s) -> stale_free_rel r (forest s) -> latest_version s < 2 ^ 63 ->
+    image_ok (phys_of r (forest s)) fi l = true ->
+    let img := encode_image (phys_of r (forest s)) fi l in
+    decode_image img = Some (phys_of r (forest s), fi, l) /\
+    open_image H iv img = DbOk (map (fun p => (fst p, POk (snd p))) (forest s)) /\
+    open_forest H iv img = DbOk (forest s).
+Proof. exact reopen_reads_back_the_model. Qed.
+Print Assumptions C13_reopen_reads_back_the_model.
+
+Theorem C13_reopen_retained_versions : ltac:(let t := type of reopen_retained_versions in exact t).
+Proof. exact reopen_retained_versions. Qed.
+Print Assumptions C13_reopen_retained_versions.
+
+Example C13_image_example : ltac:(let t := type of ex_open in exact t).
+Proof. exact ex_open. Qed.
